@@ -450,13 +450,21 @@ TimeoutOf(e) == IF IsDns(e.dst) THEN DNST ELSE T
 \* a send that FAILS (seen as an ERR_WRITE report for the datagram) has extended the association's deadline all the same -
 \* onWrite runs before the socket's WriteTo -, but promises nothing
 FailedOf(a) == {m \in Range(mlogH) : m.ev = "PktC" /\ m.a = a /\ m.st = "ERR_WRITE"}
-FailDl(a, t) == LET S == {m.t + TimeoutOf(Dg(m.did)) : m \in {x \in FailedOf(a) : x.t <= t}} IN
-                  IF S = {} THEN -1 ELSE CHOOSE x \in S : \A y \in S : y <= x
+\* Promise(a) is computed along the Handle loop's own reports for the association (mlogH is its call order; instants alone
+\* do not order two datagrams handled at the same instant).  Two values are carried: p = what has been promised to the
+\* client, d = where the deadline stands (failed sends move d but promise nothing).  A datagram - forwarded or failed -
+\* that is handled when d has already run out races with the teardown and changes neither.
+HReports(a) == SelectSeq(mlogH, LAMBDA m : m.ev = "PktC" /\ m.a = a /\ m.st \in {"OK", "ERR_WRITE"})
+SentAt(m) == LET W == {e \in Range(outT) : e.did = m.did} IN
+               IF m.st = "OK" /\ W # {} THEN (CHOOSE e \in W : TRUE).ts ELSE m.t
 RECURSIVE Prom(_, _, _, _)
-Prom(a, ws, i, p) == IF i > Len(ws) THEN p
-                     ELSE LET dl == Max(p, FailDl(a, ws[i].ts)) IN     \* where the deadline stood when this datagram was sent
-                       Prom(a, ws, i + 1, IF dl = -1 \/ ws[i].ts + Slack < dl THEN Max(p, ws[i].ts + TimeoutOf(ws[i])) ELSE p)
-Promise(a) == Prom(a, WritesOf(a), 1, -1)
+Prom(rs, i, p, d) == IF i > Len(rs) THEN p
+                     ELSE LET m == rs[i]
+                              at == SentAt(m)
+                              live == d = -1 \/ at + Slack < d
+                              nd == at + TimeoutOf(Dg(m.did)) IN
+                       Prom(rs, i + 1, IF live /\ m.st = "OK" THEN Max(p, nd) ELSE p, IF live THEN Max(d, nd) ELSE d)
+Promise(a) == Prom(HReports(a), 1, -1, -1)
 \* latest instant the association's deadline can be at (ts = when the client sent, t = when the target received)
 \* (a send that FAILS has extended the deadline all the same - onWrite runs before the socket's WriteTo -; it is seen as an
 \* ERR_WRITE report for the datagram)
